@@ -472,6 +472,33 @@ def main(tier):
     ntrees += len(top)
     for i in range(0, len(top), 40):
         tasks.append((top[i:i + 40], syms, (1, 2, 3, 5, 8, 13), True))
+    # identity-looking integer operands (0 and 1, either side) on top of rational-valued expressions
+    N = ("sym", "N")
+    inner1 = [t for t in gen_trees([N, ("int", 2), ("int", 3)], 1, ["+", "-", "*", "/"], ["neg"]) if is_sym(t)]
+    ident = []
+    for t in inner1:
+        for op in ("+", "-", "*", "/", "//", "%"):
+            for c in (0, 1):
+                ident.append((op, t, ("int", c)))
+                ident.append((op, ("int", c), t))
+    ident += [(op, t, ("int", 1)) for t in inner if is_sym(t) for op in ("//", "%")]
+    ntrees += len(ident)
+    for i in range(0, len(ident), 200):
+        tasks.append((ident[i:i + 200], syms, (1, 2, 3, 5, 8, 13), False))
+    # nested rounding with non-unit coefficients in between, simplified: floor(b*floor(N/a)/d) and relatives
+    nested = []
+    for a in (2, 3):
+        inners = [("//", N, ("int", a)), ("ceil", ("/", N, ("int", a))), ("%", N, ("int", a)), ("trunc", ("/", N, ("int", a))), ("floor", ("/", ("+", N, ("int", 1)), ("int", a)))]
+        for it in inners:
+            mids = [it, ("+", it, ("int", 1))]
+            for b in (2, 3):
+                mids += [("*", it, ("int", b)), ("+", ("*", it, ("int", b)), ("int", 1)), ("*", ("int", b), it)]
+            for md in mids:
+                for d in (2, 3):
+                    nested += [("//", md, ("int", d)), ("floor", ("/", md, ("int", d))), ("ceil", ("/", md, ("int", d))), ("%", md, ("int", d))]
+    ntrees += len(nested)
+    for i in range(0, len(nested), 16):
+        tasks.append((nested[i:i + 16], syms, tuple(range(1, 14)), True))
     for leaves, depth, bins, uns, domain, simp in plans:
         trees = gen_trees(leaves, depth, bins, uns)
         ntrees += len(trees)
